@@ -77,6 +77,7 @@ type httpPlan struct {
 	status   int
 	cutAt    int
 	chunked  bool
+	delay    time.Duration
 }
 
 type udpPlan struct {
@@ -86,6 +87,7 @@ type udpPlan struct {
 	interval uint32
 	peers    []netip.AddrPort
 	seed     uint64
+	delay    time.Duration
 }
 
 func (s step) String() string {
@@ -135,6 +137,7 @@ func genHTTPPlan(t *rapid.T) *httpPlan {
 	p := &httpPlan{status: 200, cutAt: -1}
 	p.m = genHModel(t)
 	p.chunked = rapid.IntRange(0, 3).Draw(t, "chunked") == 0
+	p.delay = rapid.SampledFrom([]time.Duration{0, 0, 0, time.Millisecond, 5 * time.Millisecond}).Draw(t, "delay")
 	switch k := rapid.IntRange(0, 19).Draw(t, "replyclass"); {
 	case k < 9:
 		p.class = "model"
@@ -163,6 +166,7 @@ var udpBadKinds = []string{"foreign-tid", "wrong-action", "error3", "short0", "s
 
 func genUDPPlan(t *rapid.T, v6 bool) *udpPlan {
 	p := &udpPlan{cid: rapid.Uint64().Draw(t, "cid"), seed: rapid.Uint64().Draw(t, "seed")}
+	p.delay = rapid.SampledFrom([]time.Duration{0, 0, 0, time.Millisecond, 5 * time.Millisecond}).Draw(t, "delay")
 	p.interval = rapid.SampledFrom([]uint32{0, 1, 59, 60, 61, 299, 301, 900, 1800, 3600, 86400, 1 << 31, 1<<32 - 1}).Draw(t, "interval")
 	n := rapid.SampledFrom([]int{0, 1, 2, 5, 50}).Draw(t, "npeers")
 	for i := 0; i < n; i++ {
@@ -340,6 +344,9 @@ type result struct {
 	timedOut bool
 }
 
+// callbackDelay: how long the peer callback takes (set by a test for the announces it makes)
+var callbackDelay time.Duration
+
 var hash20 = gen.Fill(1, 20)
 var myid20 = gen.Fill(2, 20)
 
@@ -355,6 +362,10 @@ func announce(tr tracker.Tracker, ctx context.Context) result {
 			}
 		}()
 		err := tr.Announce(ctx, hash20, myid20, 50, 1<<20, 6881, 6882, "", func(a netip.AddrPort) bool {
+			if d := callbackDelay; d > 0 {
+				// the torrent takes its time over each peer (its queue is full)
+				time.Sleep(d)
+			}
 			mu.Lock()
 			res.peers = append(res.peers, a)
 			mu.Unlock()
@@ -426,6 +437,8 @@ type caseState struct {
 }
 
 func (c *caseState) fail(format string, a ...any) {
+	// (timing-dependent failures are reported by rapid as "flaky": the text goes to the output too)
+	fmt.Printf("C15 %s (tracker %s)\n", fmt.Sprintf(format, a...), c.url)
 	c.t.Fatalf("C15 %s\ntracker: %s\nhistory:\n  %s", fmt.Sprintf(format, a...), c.url, strings.Join(c.hist, "\n  "))
 }
 
@@ -513,10 +526,15 @@ func (c *caseState) announce(s step, n int, cancelled bool) {
 	var model *hModel
 	if c.udp {
 		p := s.udp
-		c.us.install(func(k int, r udpRequest) [][]byte { return p.datagrams(k, r, c.v6) })
+		c.us.install(func(k int, r udpRequest) [][]byte {
+			if p.delay > 0 {
+				time.Sleep(p.delay)
+			}
+			return p.datagrams(k, r, c.v6)
+		})
 	} else {
 		p := s.http
-		c.hs.script(&httpAnswer{status: p.status, body: p.body, cutAt: p.cutAt, chunked: p.chunked})
+		c.hs.script(&httpAnswer{status: p.status, body: p.body, cutAt: p.cutAt, chunked: p.chunked, delay: p.delay})
 		if p.class == "model" {
 			model = p.m
 		}
@@ -529,6 +547,33 @@ func (c *caseState) announce(s step, n int, cancelled bool) {
 	t0 := time.Now()
 	results := make([]result, n)
 	var wg sync.WaitGroup
+	// somebody polls the tracker's state while the announce is in flight (the
+	// torrent's ticker and the web interface do)
+	stopWatch := make(chan struct{})
+	watched := make(chan string, 1)
+	go func() {
+		polls, busy, bad := 0, 0, ""
+		for {
+			select {
+			case <-stopWatch:
+				watched <- fmt.Sprintf("%s|%d|%d", bad, polls, busy)
+				return
+			default:
+			}
+			func() {
+				defer func() {
+					if r := recover(); r != nil && bad == "" {
+						bad = fmt.Sprintf("GetState panicked while an announce was in flight: %v", r)
+					}
+				}()
+				if st, _ := tr.GetState(); st == tracker.Busy {
+					busy++
+				}
+				polls++
+			}()
+			time.Sleep(150 * time.Microsecond)
+		}
+	}()
 	for i := range results {
 		wg.Add(1)
 		go func() {
@@ -537,6 +582,12 @@ func (c *caseState) announce(s step, n int, cancelled bool) {
 		}()
 	}
 	wg.Wait()
+	close(stopWatch)
+	if w := strings.SplitN(<-watched, "|", 3); w[0] != "" {
+		c.fail("%s", w[0])
+	} else if w[2] != "0" {
+		c.labels["state-polled-while-announce-in-flight"] = true
+	}
 	for _, r := range results {
 		if r.timedOut {
 			c.t.Skip("inconclusive: an announce against loopback did not return within 120 s")
